@@ -11,7 +11,7 @@ func init() {
 	register(&propDef{
 		ID: "C08",
 		Info: propInfo{
-			Technique: "atomic check-then-act analysis (interference-mode propagation on the batch counter) + job-status table + path rules",
+			Technique:   "atomic check-then-act analysis (interference-mode propagation on the batch counter) + job-status table + path rules",
 			Explanation: "Decides the structural part of batch delivery: (R08.1) the last-finisher decision is one atomic operation: WgCounter.Done decrements with a compare-and-swap (never a separate Load followed by Add), releases the inner WaitGroup exactly once per won swap and reports true exactly for the swap 1→0 (enumerated with every Load allowed to return 0, 1 or 2, i.e. under interference); every group Close closes the shared stream only on the path where that report was true, after the release; (R08.2) stream capacity = counter = len(items) (R05.3); (R08.3) rejected items are closed inside AddAll and never counted (R01.5); (R08.4) NumPending returns the counter, Wait waits on it, and counter and WaitGroup change only together; (R08.5) with batch size 0 every path of a result/error group constructor closes the stream, with a non-zero size none does.",
 			NotDecided:  []string{"exactly one result per executed item (needs value correlation inside the wrapper closure, see C07)", "payload equality"},
 			Assumptions: []string{"sync/atomic compare-and-swap semantics"},
@@ -21,7 +21,7 @@ func init() {
 	register(&propDef{
 		ID: "C09",
 		Info: propInfo{
-			Technique: "path analysis with status propagation + synchronous call-graph reachability + lifecycle table",
+			Technique:   "path analysis with status propagation + synchronous call-graph reachability + lifecycle table",
 			Explanation: "Decides the structural part of 'a paused or stopped worker starts nothing': (R09.1) the dispatcher loop's condition contains the running test (R03.4); (R09.2) reserve-then-check: in the dispatcher step the in-flight counter is raised before the last status test that precedes the dequeue; walked with the status fixed to Paused and to Stopped no path reaches the dequeue, and every such path lowers the counter again and re-evaluates the barrier release (with sequentially consistent atomics this is the Dekker handshake with 'store paused; wait for in-flight == 0'); (R09.3) from Pause, PauseAndWait, Stop, WaitAndStop, Restart, Resume, TunePool no synchronous call path reaches Dequeue, Purge, Enqueue or UnregisterItem: queues are untouched by lifecycle calls; (R09.4) Resume/Restart store Running and notify (R03.1); the submit paths never read the worker status, so jobs are accepted while paused or stopped; (R09.5) Stop tears down only after the wait (R06.6).",
 			NotDecided:  []string{"the order in which the surviving jobs run (C04)", "restarts racing submissions", "the memory-model argument itself (sequential consistency of sync/atomic is assumed)"},
 			Assumptions: []string{"sync/atomic operations are sequentially consistent"},
